@@ -7,7 +7,10 @@
    ([run impl rnd st schedule]; a schedule is any list of thread ids; [rnd] is the random
    source).  Trusted, not proved: that the __sync builtins are atomic as modelled and that
    the hardware gives the interleaving (sequentially consistent) semantics to them. *)
-From JC Require Import Base ThreadModel ThreadImpl ThreadProofs.
+(* ThreadImplCheck is generated together with ThreadImpl: it compiles only when tr/atomics.py
+   recognised every function; otherwise ThreadImpl holds marked placeholders and nothing below
+   may count as established for the source at hand. *)
+From JC Require Import Base ThreadModel ThreadImpl ThreadImplCheck ThreadProofs.
 Local Open Scope Z_scope.
 
 (* the regenerated programs have the atomic shapes (re-checked against the regenerated file) *)
@@ -99,6 +102,24 @@ Theorem C18_nonatomic_lost_update :
     mem st (RC 0) <> rc_two 0%nat + total_get 0 ths - total_put 0 ths.
 Proof. exact nonatomic_lost_update. Qed.
 Print Assumptions C18_nonatomic_lost_update.
+
+(* get as a load and ONE compare-and-swap whose failure is ignored (no retry): a schedule
+   loses an acquisition, and one then destroys the node while a reference is still owned *)
+Theorem C18_casonce_lost_update :
+  exists ths sch, wf_init 0 rc_two ths /\
+    let st := run casonce_impl rnd_ex (init_state rc_two ths) sch in
+    finished st = true /\
+    mem st (RC 0) <> rc_two 0%nat + total_get 0 ths - total_put 0 ths.
+Proof. exact casonce_lost_update. Qed.
+Print Assumptions C18_casonce_lost_update.
+
+Theorem C18_casonce_premature_destroy :
+  exists ths sch, wf_init 0 rc_two ths /\
+    let st := run casonce_impl rnd_ex (init_state rc_two ths) sch in
+    destroy_count 0 (trace st) = 1 /\
+    exists th, nth_error (thr st) 1 = Some th /\ 1 <= held th 0%nat.
+Proof. exact casonce_premature_destroy. Qed.
+Print Assumptions C18_casonce_premature_destroy.
 
 (* ... and one destroys the node while a reference is still owned *)
 Theorem C18_nonatomic_premature_destroy :
